@@ -189,6 +189,15 @@ func (c16) Exec(h []Ev) []Ev {
 			default:
 				e["err"] = "other"
 			}
+			// a reader that Sync left on a header is synced: asking again must answer 0 and not move it
+			e["again_off"], e["again_err"] = 0, "nil"
+			if err == nil {
+				off2, err2 := packet.Sync(rd)
+				e["again_off"] = int(off2)
+				if err2 != nil {
+					e["again_err"] = "err"
+				}
+			}
 			left, _ := io.ReadAll(rest)
 			e["rest"] = B(left)
 			e["input_same"] = bytes.Equal(s, keep)
